@@ -470,6 +470,10 @@ pub fn random_u64() -> u64 {
 }
 
 pub fn random_u32() -> u32 {
+    #[cfg(rustrtc_verif)]
+    if let Some(v) = crate::verif::forced_u32() {
+        return v;
+    }
     rand::rng().random()
 }
 
